@@ -342,11 +342,21 @@ def witness_search(ctx: Ctx, thorough: bool):
         d[f], d[g] = maxes[f], maxes[g]
         combos.append(d)
     combos.append({f: (0x5A5A5A & maxes[f]) for f, _ in FIELDS})
+    # the identification word and the sequence word hold the same 16-bit value (0x5ABC), and the next packet's identification word
+    # equals this packet's sequence word (0x0964)
+    combos.append({"version_number": 2, "type": 1, "secondary_header_flag": 1, "apid": 700, "sequence_flags": 1, "sequence_count": 6844})
+    combos.append({"version_number": 0, "type": 0, "secondary_header_flag": 0, "apid": 100, "sequence_flags": 0, "sequence_count": 2404})
+    combos.append({"version_number": 0, "type": 0, "secondary_header_flag": 1, "apid": 356, "sequence_flags": 3, "sequence_count": 1})
     lens = [1, 2, 3, 255, 256, 257, 32767, 32768, 32769, 65535, 65536]
     site = f"{fi.key}::witness-search"
     bad = None
     n = 0
     try:
+        # accessors on buffers too short to hold the field come first (they fail, or read what is there) - and must leave nothing
+        # behind that changes what later, well-formed packets give
+        for short in (b"", b"\x0c", b"\x0c\x34\x56"):
+            for fname, _ in FIELDS:
+                h.outcome(f"obj.{fname}", PK, obj=BytesObj(short, cls="RawPacketData"))
         seen = set()
         for d in combos:
             allmax = all(d[f] == maxes[f] for f in d)
